@@ -109,7 +109,7 @@ class Extractor:
     # ------------------------------------------------------------------ top level
     def run(self):
         out = self.out
-        out.add('#![allow(unused_imports, unused_variables, unused_mut, dead_code, unused_assignments, non_snake_case, unreachable_patterns, unused_parens, non_camel_case_types)]\n#![feature(allocator_api)]\n', ('gen', 'header'))
+        out.add('#![allow(unused_imports, unused_variables, unused_mut, dead_code, unused_assignments, non_snake_case, unreachable_patterns, unused_parens, non_camel_case_types)]\n#![feature(allocator_api)]\n#![verifier::allow(autoderive_clone_without_spec)]\n', ('gen', 'header'))
         out.add('use vstd::prelude::*;\nuse vstd::std_specs::cmp::OrdSpec;\nuse std::collections::HashMap;\nuse std::convert::TryFrom;\nuse std::convert::TryInto;\nuse std::num::TryFromIntError;\n', ('gen', 'header'))
         out.add('verus! {\n', ('gen', 'header'))
         for d, tag in ((self.prelude_dir, 'prelude'), (self.spec_dir, 'spec')):
